@@ -276,6 +276,19 @@ class Run:
         self._last_error = None
         self.foreign = 0              # requests made through a market other than the order's own
         self.clock_ok = True
+        self.clock_notes = []
+
+    def clock_probe(self, where, pt, created=None, closed=None):
+        """the framework clock inside a callback is the publish time of the update being processed - also in the callbacks that run
+        before the book is handed to the strategies (new market, closed market) - and what the framework stamps there carries it"""
+        now = ms(datetime.datetime.utcnow())
+        if now != str(pt):
+            self.clock_ok = False
+            self.clock_notes.append("%s: clock %s while processing the update published at %s" % (where, now, pt))
+        for name, stamp in (("market.date_time_created", created), ("market.date_time_closed", closed)):
+            if stamp is not None and ms(stamp) != str(pt) and where == "new-market" and name.endswith("created"):
+                self.clock_ok = False
+                self.clock_notes.append("%s = %s, the market was created by the update published at %s" % (name, ms(stamp), pt))
 
     # ---- canonical dump
     def show_order(self, o):
@@ -544,6 +557,7 @@ class Run:
                     if hit("s%d" % self.sidx, "newMarket", market.market_id, market_book.publish_time_epoch):
                         return
                     run.events.append("newMarket/%d/%d" % (self.sidx, market_num(market.market_id)))
+                    run.clock_probe("new-market", market_book.publish_time_epoch, created=market.date_time_created)
 
                 def process_market_book(self, market, market_book):
                     pt = market_book.publish_time_epoch
@@ -581,11 +595,13 @@ class Run:
                     if hit("s%d" % self.sidx, "orders", market.market_id, market.market_book.publish_time_epoch):
                         return
                     run.events.append("processOrders/%d/%d/%d" % (self.sidx, market_num(market.market_id), len(orders)))
+                    run.clock_probe("orders", market.market_book.publish_time_epoch)
 
                 def process_closed_market(self, market, market_book):
                     if hit("s%d" % self.sidx, "closed", market.market_id, market_book.publish_time_epoch):
                         return
                     run.events.append("closed/%d/%d/%d" % (self.sidx, market_num(market.market_id), market_book.publish_time_epoch))
+                    run.clock_probe("closed", market_book.publish_time_epoch, closed=market.date_time_closed if market.closed else None)
 
             from flumine.markets.middleware import Middleware
 
